@@ -108,7 +108,7 @@ def _tick(loop_id):
     n = TICKS.get(loop_id, 0) + 1
     TICKS[loop_id] = n
     if n > TICK_LIMIT:
-        raise LoopBound(loop_id)
+        raise core.emulated(LoopBound(loop_id))
 
 
 def reset_ticks(limit=None):
